@@ -154,6 +154,11 @@ fn main() {
             let nshards: u64 = args[5].parse().unwrap();
             let count: u64 = args[6].parse().unwrap();
             let pn: u64 = prop[1..].parse().unwrap_or(0);
+            // exponents of the scale variants (a property whose oracle enumerates lattice points excludes the positive ones)
+            let scale_exps: Vec<i32> = match std::env::var("VERIF_SCALE_EXPS") {
+                Ok(v) if !v.is_empty() => v.split(',').filter_map(|x| x.parse().ok()).collect(),
+                _ => vec![-60, -40, -30, -27, -10, -8, 27, 40],
+            };
             let scale_props: Vec<String> = std::env::var("VERIF_SCALE_PROPS").unwrap_or_default().split(',').map(|s| s.to_string()).collect();
             let dup_props: Vec<String> = std::env::var("VERIF_DUP_PROPS").unwrap_or_default().split(',').map(|s| s.to_string()).collect();
             let mut i = shard;
@@ -167,7 +172,7 @@ fn main() {
                 // one case in ten is run at a tiny or huge dyadic scale (props listed in VERIF_SCALE_PROPS): all input
                 // coordinates times 2^k on both sides; only if every number of the case stays far from the range limits
                 if rng.chance(1, 10) && scale_props.iter().any(|p| p == prop) && scale_safe(&input) {
-                    let k = *rng.pick(&[-60i32, -40, -30, -27, -10, -8, 27, 40]);
+                    let k = *rng.pick(&scale_exps);
                     input = format!("SC {} {}", k, input);
                 }
                 // one case in eight with a zero coordinate is run in a negative-zero spelling
